@@ -13,7 +13,7 @@ package main
 //	    provider.NewNum, a gun that records the instant of Shoot entry and then sleeps resp[k mod len] ms (k = number of
 //	    the shot of that instance), an aggregator that records every Report.
 //
-//	mode=proc given=<none|true|false> lat=<ms> times=<N> [pools=<k>] [fmt=yaml|json|toml|stdin] [key=upper] [anchor=1]
+//	mode=proc given=<none|true|false> lat=<ms> times=<N> [pools=<k>] [fmt=yaml|json|toml|stdin] [key=upper] [anchor=1] [rps=mix]
 //	    the real pandora BINARY (go build of <repo>/main.go) with a yaml config whose pool section does not mention
 //	    discard_overflow / says true / says false, profile once(N), one instance, http gun against an in-process target that
 //	    answers after lat ms, phout result file: ties cli.readConfig's default, the config decoding, the wiring into the
@@ -579,10 +579,10 @@ func gen(r *rand.Rand, tier string) []string {
 		"mode=proc given=none lat=800 times=5 pools=2",
 		// the same option through the other ways a config can reach readConfig: json and toml files, yaml on standard input,
 		// an upper-case key (config keys are case-insensitive), a pool section taken over through a yaml merge key
-		"mode=proc given=none lat=800 times=5 fmt=json",
-		"mode=proc given=none lat=800 times=5 fmt=stdin",
 		"mode=proc given=false lat=800 times=5 key=upper fmt=toml",
-		"mode=proc given=none lat=800 times=5 pools=2 anchor=1")
+		"mode=proc given=none lat=800 times=5 pools=2 anchor=1",
+		"mode=proc given=true lat=800 times=5 fmt=json key=upper")
+	// (json file / yaml on stdin with the option left out, the mixed profile, late starters: corpus/C04.txt)
 	// scripted engine scenarios: single and several instances, const/once profiles, response-time histories 0 / 0.3 s /
 	// 1 s / 3 s and mixtures
 	quick := []string{
@@ -599,7 +599,6 @@ func gen(r *rand.Rand, tier string) []string {
 		"mode=engine inst=4 prof=line:2:12:2000 resp=700,2100 discard=1",
 		"mode=engine inst=8 prof=step:4:12:4:500 resp=1500 discard=1",
 		// instances started 0.8 s apart: the fourth one finds its first token 2.4 s late
-		"mode=engine inst=5 startup=const:1.25:4001 prof=once:9 resp=3000 discard=1",
 		"mode=engine inst=3 startup=const:0.7:4288 prof=const:10:3000 resp=4000,0 discard=1",
 		"mode=engine inst=3 startup=const:0.7:4288 prof=once:5 resp=300 discard=0",
 	}
@@ -622,6 +621,9 @@ func gen(r *rand.Rand, tier string) []string {
 				}
 			}
 			out = append(out, fmt.Sprintf("mode=proc given=%s lat=800 times=5 pools=3 anchor=1", g))
+			if g != "false" {
+				out = append(out, fmt.Sprintf("mode=proc given=%s lat=1400 rps=mix times=9 pools=2", g), fmt.Sprintf("mode=proc given=%s lat=1150 rps=mix times=9 fmt=stdin", g))
+			}
 		}
 		// the grid: instance counts x response-time histories x discard_overflow
 		for _, inst := range []int{1, 2, 3, 4, 8, 16} {
